@@ -20,6 +20,7 @@ import (
 	"go/token"
 	"os"
 	"path/filepath"
+	"regexp"
 	"sort"
 	"strconv"
 	"strings"
@@ -35,6 +36,7 @@ type anchor struct {
 	Callee   string `json:"callee,omitempty"`
 	Arg      int    `json:"arg,omitempty"`
 	Nth      int    `json:"nth,omitempty"`
+	Re       string `json:"re,omitempty"` // with kind stmt/cond/arg: emit the number captured by group 1 (Nat fact)
 	Props    []string `json:"props,omitempty"`
 }
 
@@ -427,7 +429,25 @@ func main() {
 	}
 	var facts []fact
 	for _, a := range as {
-		facts = append(facts, resolve(*repo, a))
+		f := resolve(*repo, a)
+		if a.Re != "" && f.Type == "String" {
+			// numeric fact captured from the located source fragment
+			f.Type = "Nat"
+			if f.Missing {
+				f.Nat, f.Str = missingNat, ""
+			} else if m := regexp.MustCompile(a.Re).FindStringSubmatch(f.Str); m != nil && len(m) > 1 {
+				n, err := strconv.ParseUint(m[1], 0, 64)
+				if err != nil {
+					f.Missing, f.Nat = true, missingNat
+				} else {
+					f.Nat = n
+				}
+				f.Str = ""
+			} else {
+				f.Missing, f.Nat, f.Str = true, missingNat, ""
+			}
+		}
+		facts = append(facts, f)
 	}
 	sort.SliceStable(facts, func(i, j int) bool { return facts[i].Name < facts[j].Name })
 
